@@ -237,7 +237,7 @@ def _rand_value(rng, codes):
     if shape == "flat":
         return ("flat", [rng.choice(codes) for _ in range(rng.choice([0, 1, 2, 4, 6]))])
     n = rng.choice([0, 1, 1, 2, 3, 4])
-    lens = [rng.choice([0, 0, 1, 2, 3, 5]) for _ in range(n)]
+    lens = [rng.choice([0, 0, 1, 2, 3, 5, 8]) for _ in range(n)]
     if rng.random() < 0.15:
         lens = [0] * n
     return ("rag", [[rng.choice(codes) for _ in range(l)] for l in lens])
@@ -278,8 +278,25 @@ def cases(tier, rng):
                 cur = o_apply(cur, op)
             except Bad:
                 break
-        kind = rng.choice(["program", "program", "eqchar"])
-        case = {"op": kind, "enc": enc, "v": _val_json(val), "ops": ops}
+        kind = rng.choice(["program", "program", "eqchar", "copy_indep"])
+        case = {"op": kind, "enc": enc, "v": _val_json(val), "ops": ops, "npint": rng.random() < 0.4,
+                "vform": rng.choice(["str", "str", "base", "enc"])}
+        if kind == "copy_indep":
+            # after the program: c = r.copy(); assign into c; the original r must be unchanged (and vice versa)
+            try:
+                cur_ok = cur if not isinstance(cur, Exception) else None
+                asg = _rand_op(rng, cur, codes)
+                tries = 0
+                while asg["o"] not in ("setRow", "setRowSlice", "setFlat") and tries < 20:
+                    asg = _rand_op(rng, cur, codes)
+                    tries += 1
+                if asg["o"] not in ("setRow", "setRowSlice", "setFlat"):
+                    kind = case["op"] = "program"
+                else:
+                    case["asg"] = asg
+                    case["into"] = rng.choice(["copy", "orig"])
+            except Exception:
+                kind = case["op"] = "program"
         if kind == "eqchar":
             case["c"] = rng.choice(codes)
         yield case
@@ -298,7 +315,7 @@ def cases(tier, rng):
 
 
 def nontrivial(c):
-    if c["op"] in ("program", "eqchar"):
+    if c["op"] in ("program", "eqchar", "copy_indep"):
         v = c["v"]
         rag_uneven = v["t"] == "rag" and len({len(r) for r in v["r"]}) > 1
         return len(c["ops"]) >= 2 or rag_uneven or (v["t"] == "rag" and any(len(r) == 0 for r in v["r"]))
@@ -317,10 +334,13 @@ def _build(enc_name, vj):
     return EncodedRaggedArray(EncodedArray(np.array(flat, dtype=dt), E), [len(r) for r in vj["r"]])
 
 
+_NPINT = False
+
+
 def _np_idx(ix):
     t = ix["t"]
     if t == "int":
-        return ix["i"]
+        return np.int64(ix["i"]) if _NPINT else ix["i"]
     if t == "slice":
         return slice(ix["a"], ix["b"], ix["s"])
     if t == "mask":
@@ -360,32 +380,66 @@ def impl(c):
         f = _build("BaseEncoding", {"t": "flat", "l": c["s"]})
         return [[int(x) for x in row.raw()] for row in split(f, sep=chr(c["sep"]))]
     enc = c["enc"]
+    global _NPINT
+    _NPINT = bool(c.get("npint"))
+    vform = c.get("vform", "str")
+
+    def value(codes_):
+        if vform == "enc":
+            return _build(enc, {"t": "flat", "l": codes_})
+        if vform == "base":
+            return bnp.as_encoded_array(_text_of(codes_, enc))
+        return _text_of(codes_, enc)
+
+    def step(v, o):
+        k = o["o"]
+        if k == "index":
+            return v[_np_idx(o["ix"])]
+        if k == "colSlice":
+            return v[:, slice(o["a"], o["b"], o["s"])]
+        if k == "colInt":
+            return v[_np_idx(o["rows"]), (np.int64(o["j"]) if _NPINT else o["j"])]
+        if k == "concat":
+            return np.concatenate([v, _build(enc, o["w"])])
+        if k == "ravel":
+            return v.ravel()
+        if k == "copy":
+            return v.copy()
+        if k == "setRow":
+            v[o["i"]] = value(o["v"])
+            return v
+        if k == "setRowSlice":
+            v[o["i"], slice(o["a"], o["b"])] = value(o["v"])
+            return v
+        if k == "setFlat":
+            v[_np_idx(o["ix"])] = value(o["v"])
+            return v
+        if k == "append":
+            return np.append(v, _build(enc, {"t": "flat", "l": o["v"]}))
+        if k == "insert":
+            return np.insert(v, o["i"], _build(enc, {"t": "flat", "l": o["v"]}))
+        raise ValueError(k)
+
+    if op == "copy_indep":
+        try:
+            v = _build(enc, c["v"])
+            for o in c["ops"]:
+                v = step(v, o)
+            cp = v.copy()
+            if c["into"] == "copy":
+                cp = step(cp, c["asg"])
+            else:
+                v = step(v, c["asg"])
+            a, b = _observe(v, enc), _observe(cp, enc)
+            if "err" in a or "err" in b:
+                return {"err": "index"}
+            return {"orig": a["text"], "copy": b["text"]}
+        except Exception as e:
+            return {"err": "index", "exc": type(e).__name__}
     try:
         v = _build(enc, c["v"])
         for o in c["ops"]:
-            k = o["o"]
-            if k == "index":
-                v = v[_np_idx(o["ix"])]
-            elif k == "colSlice":
-                v = v[:, slice(o["a"], o["b"], o["s"])]
-            elif k == "colInt":
-                v = v[_np_idx(o["rows"]), o["j"]]
-            elif k == "concat":
-                v = np.concatenate([v, _build(enc, o["w"])])
-            elif k == "ravel":
-                v = v.ravel()
-            elif k == "copy":
-                v = v.copy()
-            elif k == "setRow":
-                v[o["i"]] = _text_of(o["v"], enc)
-            elif k == "setRowSlice":
-                v[o["i"], slice(o["a"], o["b"])] = _text_of(o["v"], enc)
-            elif k == "setFlat":
-                v[_np_idx(o["ix"])] = _text_of(o["v"], enc)
-            elif k == "append":
-                v = np.append(v, _build(enc, {"t": "flat", "l": o["v"]}))
-            elif k == "insert":
-                v = np.insert(v, o["i"], _build(enc, {"t": "flat", "l": o["v"]}))
+            v = step(v, o)
         if op == "eqchar":
             ch = chr(_dec_table(enc)[c["c"]])
             r = (v == ch)
@@ -431,8 +485,17 @@ def oracle(c):
         ops.append(o2)
     try:
         r = o_run(val, ops)
+        if op == "copy_indep":
+            asg = dict(c["asg"])
+            if "v" in asg:
+                asg["v"] = [dec[x] for x in asg["v"]]
+            r2 = o_apply(r, asg)
     except Bad:
         return SKIP      # out-of-range index / ill-shaped assignment: the property quantifies over in-range programs only
+    if op == "copy_indep":
+        if r[0] == "scalar":
+            return SKIP
+        return {"orig": _val_json(r2 if c["into"] == "orig" else r), "copy": _val_json(r2 if c["into"] == "copy" else r)}
     if op == "eqchar":
         ch = dec[c["c"]]
         return {"eq": _val_json(r, lambda x: x == ch)}
@@ -452,6 +515,8 @@ def agree_model(c, got, m):
 
 
 def model_request(c):
+    if c["op"] == "copy_indep":
+        return None      # aliasing is not observable in the pure model; decided against the oracle
     if c["op"] in ("program", "eqchar"):
         if isinstance(oracle(c), core.Skip):
             return None
@@ -460,10 +525,12 @@ def model_request(c):
 
 
 def finding_key(c, got, exp):
-    if c["op"] not in ("program", "eqchar"):
+    if c["op"] not in ("program", "eqchar", "copy_indep"):
         return c["op"]
     if any(o["o"] == "colSlice" and o["s"] < 0 and (o["a"] is not None or o["b"] is not None) for o in c["ops"]):
         return "colSlice:negative-step-with-explicit-bounds"
+    if c["op"] == "copy_indep":
+        return "copy:not-independent-of-original" if not (isinstance(got, dict) and "err" in got) else "copy:raises"
     last = c["ops"][-1]["o"] if c["ops"] else "none"
     if isinstance(got, dict) and "err" in got and "err" not in exp:
         return f"{c['v']['t']}:{last}:raises-{got.get('exc', '')}"
